@@ -4,11 +4,14 @@ import (
 	"context"
 	"fmt"
 	"runtime"
+	"strings"
 	"sync"
+	"sync/atomic"
 	"testing"
 	"testing/synctest"
 	"time"
 
+	"github.com/btcsuite/btclog/v2"
 	"github.com/lightninglabs/lightning-node-connect/gbn"
 )
 
@@ -175,6 +178,104 @@ func TestGenC13(t *testing.T) {
 			q.stat("distinct_nontrivial", 1)
 		}
 	}
+	// (b2) live peer, window freed without the send loop being told at the usual moment: (i) the ACKs of a full
+	// window are lost and an in-order duplicate draws NACK(top), which empties the window; (ii) all ACKs are processed
+	// in the gap between the send loop's window test and its wait (gap held open through the package logger). From
+	// then on the transport is perfect and the peer answers everything at once: the connection is never closed.
+	for _, variant := range []string{"nack-top", "ack-in-the-gap"} {
+		for _, n := range []int{1, 2, 3} {
+			id++
+			cfg := simCfg{id: fmt.Sprintf("w%d", id), n: uint8(n), ping: time.Second, pong: 500 * time.Millisecond, static: 5 * time.Second, srvNoPing: true}
+			l.keep = l.keep[:0]
+			l.o.line("BEGIN %s n=%d chunk=0 ping=%d pong=%d class=alive", cfg.id, n, int64(cfg.ping), int64(cfg.pong))
+			pan := bubble(t, func(t *testing.T) {
+				l.start = time.Now()
+				l.last = 0
+				base := runtime.NumGoroutine()
+				s := newSim(t, l, cfg)
+				var armed, fired atomic.Bool
+				if variant == "ack-in-the-gap" {
+					gbn.UseLogger(&hookLogger{Logger: btclog.Disabled, hook: func(prefix, format string) {
+						if !strings.Contains(prefix, "client") || format != "The queue is full." || !armed.CompareAndSwap(true, false) {
+							return
+						}
+						for k := 0; k < n; k++ {
+							s.opNoWait(0, "deliver")
+							for s.chanLen(1) == 0 {
+								time.Sleep(time.Microsecond)
+							}
+							before := s.rxCalls[0].Load()
+							s.opNoWait(1, "deliver")
+							for s.rxCalls[0].Load() == before {
+								time.Sleep(time.Microsecond)
+							}
+						}
+						fired.Store(true)
+					}})
+					defer gbn.UseLogger(btclog.Disabled)
+				}
+				if !s.cleanHandshake() {
+					q.fail("c13:handshake", cfg.id)
+					s.finish(base)
+					return
+				}
+				for i := 0; i < n; i++ {
+					s.recv(1)
+				}
+				if variant == "nack-top" {
+					for i := 0; i < n; i++ {
+						s.send(0, []byte{byte(i), 7})
+					}
+					for i := 0; i < n; i++ {
+						if i == n-1 {
+							s.op(0, "keep")
+						}
+						s.op(0, "deliver")
+					}
+					for i := 0; i < n && s.chanLen(1) > 1; i++ {
+						s.op(1, "drop")
+					}
+				} else {
+					for i := 0; i < n; i++ {
+						if i == n-1 {
+							armed.Store(true)
+						}
+						s.send(0, []byte{byte(i), 9})
+					}
+					for k := 0; k < 10000 && !fired.Load(); k++ {
+						s.advance(time.Microsecond)
+					}
+				}
+				start := time.Now()
+				closed := false
+				for time.Since(start) < 20*time.Second && !closed {
+					moved := false
+					for x := 0; x < 2; x++ {
+						for s.canOp(x) {
+							s.op(x, "deliver")
+							moved = true
+						}
+					}
+					if !moved {
+						s.advance(50 * time.Millisecond)
+					}
+					closed = isClosed(s, 0) || isClosed(s, 1)
+				}
+				q.check(!closed, "c13:live-peer-closed:window-freed-"+variant, func() string {
+					return fmt.Sprintf("scenario %s: n=%d ping=1s pong=0.5s (client only) resend=5s, %s, then a perfect transport and a peer that answers at once: closed after %v; last events %v",
+						cfg.id, n, variant, time.Since(start), lastN(noPolls(l.keep), 24))
+				})
+				s.finish(base)
+			})
+			l.o.line("END %s", cfg.id)
+			if pan != "" {
+				q.fail("c13:bubble-panic", cfg.id+": "+truncate(pan, 300))
+			}
+			q.stat("live_peer_scenarios", 1)
+			q.stat("live_peer_window_freed_"+variant, 1)
+			q.stat("distinct_nontrivial", 1)
+		}
+	}
 	_ = r
 	_ = synctest.Wait
 	// (c) rendezvous transport, real time: a send returns only when the peer has taken the packet, and for a ping
@@ -263,6 +364,18 @@ func qclass(withPing, n int) string {
 		return "ping-fills-window"
 	}
 	return "window-full-before-ping"
+}
+
+// noPolls drops the harness's own is-it-closed probes (a Recv with a 1 ns timeout) from an event list
+func noPolls(l []string) []string {
+	var out []string
+	for _, e := range l {
+		if strings.HasPrefix(e, "RC ") || strings.HasSuffix(e, "err:recv-timeout") {
+			continue
+		}
+		out = append(out, e)
+	}
+	return out
 }
 
 func lastN(l []string, n int) []string {
